@@ -951,6 +951,12 @@ func (e *Engine) callContract(c *Contract, fn *types.Func, recvName string, recv
 		t := term(e.evalSpec(cl.Expr, mkEnv(st, pre)))
 		st.assume(t)
 	}
+	// assumes: postconditions of a function under contract that are NOT checked against its body (effects that live
+	// outside the verifier's subset, e.g. what a reflection-based codec leaves in a file); reported as assumptions
+	for _, cl := range c.byKind("assumes", "") {
+		e.notes["assumed (unchecked) postcondition of "+callee+": "+cl.Label+" "+cl.Text] = true
+		st.assume(term(e.evalSpec(cl.Expr, mkEnv(st, pre))))
+	}
 	// offers: postconditions proved like ensures but handed only to callers that ask for them by label
 	// (//@ import "label"), so that rarely needed conditional facts do not burden every call site
 	for _, cl := range c.byKind("offers", "") {
